@@ -158,6 +158,9 @@ func TestPropDevMode(t *testing.T) {
 type EditCase struct {
 	Versions []*tgen.File `json:"versions"`
 	Edits    []string     `json:"edits"`
+	// Faults lists versions whose save first hits a write fault (the handler cannot write the
+	// generated file) and is then saved again, unchanged, once the fault is gone.
+	Faults []int `json:"faults,omitempty"`
 }
 
 var recEdit = ev.New("C16", "c16.text-only-classification",
@@ -237,7 +240,23 @@ func decideEditsN(c EditCase) (textOnly int, err error) {
 		sort.Strings(exprs)
 		g, _, gerr := tc.Generate(src, "p0.templ")
 		if gerr != nil {
-			return textOnly, nil // a version templ generate rejects ends the sequence (the watcher reports the error)
+			if i == 0 {
+				return textOnly, nil
+			}
+			// A version templ generate rejects: the watcher reports the error, nothing is compiled,
+			// and the author goes on editing - the next versions are still judged against the code
+			// that was compiled last.
+			_, _ = p.Put(0, src)
+			recEdit.Class("a version that is not accepted in the middle of the sequence")
+			continue
+		}
+		for _, fi := range c.Faults {
+			if fi == i && i > 0 {
+				p.FailWrites = 1
+				_, _ = p.Put(0, src)
+				p.FailWrites = 0
+				recEdit.Class("a save that hits a write fault and is repeated")
+			}
 		}
 		r, err := p.Put(0, src)
 		if err != nil {
@@ -330,6 +349,9 @@ func TestPropEdits(t *testing.T) {
 		}
 		if len(c.Versions) < 2 {
 			return
+		}
+		if rapid.IntRange(0, 3).Draw(t, "withFault") == 0 {
+			c.Faults = []int{rapid.IntRange(1, len(c.Versions)-1).Draw(t, "faultAt")}
 		}
 		for _, e := range c.Edits {
 			recEdit.Class("edit:" + strings.SplitN(e, ":", 2)[0])
